@@ -348,6 +348,66 @@ func runC15(w *World, r *Report) {
 	}
 	r.Extra["map_writes"] = nMU
 
+	// a slice is never made with a size that is a difference which can be negative (makeslice panics: len/cap out of range)
+	r.rule("make-size-not-negative", "a make([]T, …) whose length or capacity is computed by subtracting one run-time quantity from another lies behind a comparison of those two quantities (x >= y, y <= x, x > y, …) on every path; sizes that are sums of lengths, constants, or a length minus a constant guarded by a length fact are not concerned", 0)
+	nMk := 0
+	for _, fn := range append(append([]*ssa.Function{}, fns...), w.RepoFuncs("cache", "webhooks", "wallet")...) {
+		instrsOf(fn, func(in ssa.Instruction) {
+			mk, ok := in.(*ssa.MakeSlice)
+			if !ok {
+				return
+			}
+			for _, sz := range []ssa.Value{mk.Len, mk.Cap} {
+				bo, ok := sz.(*ssa.BinOp)
+				if !ok || bo.Op != token.SUB {
+					continue
+				}
+				if _, isK := intConst(bo.Y); isK {
+					if p, off, isLen := lenExpr(sz); isLen {
+						okLen, _ := fe.Holds(mk, pfact{kind: kLenMin, path: p, min: -off}, 0)
+						nMk++
+						r.check(okLen, "make-size-not-negative", shortFn(fn)+"/make("+pathOf(sz)+")", lineOf(w, mk), "len(x) - c is not negative", "no length fact covers the subtraction")
+					}
+					continue
+				}
+				nMk++
+				guarded := false
+				for _, b := range fn.Blocks {
+					for i := range b.Succs {
+						e := Edge{b, i}
+						if len(b.Instrs) == 0 {
+							continue
+						}
+						iff, isIf := b.Instrs[len(b.Instrs)-1].(*ssa.If)
+						if !isIf {
+							continue
+						}
+						cmp, isCmp := iff.Cond.(*ssa.BinOp)
+						if !isCmp {
+							continue
+						}
+						truth := i == 0
+						ge := false
+						switch {
+						case sameVal(cmp.X, bo.X) && sameVal(cmp.Y, bo.Y): // x ? y
+							ge = truth && (cmp.Op == token.GEQ || cmp.Op == token.GTR || cmp.Op == token.EQL) || !truth && (cmp.Op == token.LSS)
+						case sameVal(cmp.X, bo.Y) && sameVal(cmp.Y, bo.X): // y ? x
+							ge = truth && (cmp.Op == token.LEQ || cmp.Op == token.LSS || cmp.Op == token.EQL) || !truth && (cmp.Op == token.GTR)
+						}
+						if ge && behind(mk, []Edge{e}) {
+							guarded = true
+						}
+					}
+				}
+				r.check(guarded, "make-size-not-negative", shortFn(fn)+"/make(…"+pathOf(bo.X)+" - "+pathOf(bo.Y)+")", lineOf(w, mk), "the minuend is known to be at least the subtrahend where the slice is made",
+					fmt.Sprintf("make with size %s - %s: nothing on the way establishes %s >= %s, a negative size panics (makeslice: len/cap out of range)", pathOf(bo.X), pathOf(bo.Y), pathOf(bo.X), pathOf(bo.Y)))
+			}
+		})
+	}
+	if nMk == 0 {
+		r.ok("make-size-not-negative", "none", "-", "no slice is made with a subtracted size in the request-handling packages")
+	}
+
 	// shared tables are only touched under their lock (an unsynchronised map access aborts the process)
 	tablesUnderLock(w, r, "shared-table-under-lock")
 
@@ -406,7 +466,6 @@ func runC15(w *World, r *Report) {
 	}
 	r.Extra["D2_sites"] = nD2
 }
-
 
 // nilCheckedThenUsed (a contradiction rule): the function itself tests v against nil, so it believes v can be nil; a
 // dereference of the very same value — a method call on the interface, a field access or load through the pointer —
@@ -467,7 +526,9 @@ func nilCheckedThenUsed(w *World, r *Report, rule string, fns []*ssa.Function) {
 		for v := range nilEdges {
 			vals = append(vals, v)
 		}
-		sort.Slice(vals, func(i, j int) bool { return vals[i].Pos() < vals[j].Pos() || vals[i].Pos() == vals[j].Pos() && vals[i].Name() < vals[j].Name() })
+		sort.Slice(vals, func(i, j int) bool {
+			return vals[i].Pos() < vals[j].Pos() || vals[i].Pos() == vals[j].Pos() && vals[i].Name() < vals[j].Name()
+		})
 		for _, v := range vals {
 			nTests++
 			def, _ := v.(ssa.Instruction)
@@ -499,7 +560,6 @@ func nilCheckedThenUsed(w *World, r *Report, rule string, fns []*ssa.Function) {
 	}
 	r.Extra["nil_tested_values"] = nTests
 }
-
 
 // mapMayBeNil: can map value v be nil? "" when every origin is an allocation (or unknown storage that is assumed
 // allocated: fields, parameters, results of foreign calls); otherwise what makes it nil.
